@@ -385,7 +385,7 @@ func checkNoDroppedErrors(p *Program, r *Result, pkgs []string) {
 				r.OK(fn.String(), key, r.pos(s.Call), "dropped: the destination is a latching writer ("+short(li.write.String())+" keeps the first error in "+li.name+" and sends nothing after it); the function that made it returns that error (latch-returned)", Witness{Kind: "table", Text: "latching writer"})
 				continue
 			}
-			if s.Callee == "(*os.File).Close" && closesReadOnlyFile(s.Call) {
+			if (s.Callee == "(*os.File).Close" || s.Callee == "invoke (io.Closer).Close" || s.Callee == "invoke (io.ReadCloser).Close") && closesReadOnlyFile(s.Call) {
 				r.OK(fn.String(), key, r.pos(s.Call), "dropped: Close of a file opened read-only with os.Open (nothing was written that could be lost)", Witness{Kind: "table", Text: "os.Open opens read-only"})
 				continue
 			}
@@ -979,6 +979,9 @@ func valueMentions(v ssa.Value, set map[ssa.Value]bool, depth int) bool {
 // captured by a deferred closure.
 func closesReadOnlyFile(c ssa.CallInstruction) bool {
 	args := c.Common().Args
+	if c.Common().IsInvoke() {
+		args = []ssa.Value{c.Common().Value}
+	}
 	if len(args) == 0 {
 		return false
 	}
@@ -988,9 +991,38 @@ func closesReadOnlyFile(c ssa.CallInstruction) bool {
 			return false
 		}
 		switch x := stripConv(v).(type) {
+		case *ssa.MakeInterface:
+			return fromOpen(x.X, d+1)
+		case *ssa.Const:
+			return x.IsNil() && d > 0 // the error exits of a helper spliced in front of the defer
+		case *ssa.Call:
+			// io.NopCloser(os.Stdin): closing it does nothing
+			return calleeName(&x.Call) == "io.NopCloser"
 		case *ssa.Extract:
 			call, ok := x.Tuple.(*ssa.Call)
-			return ok && x.Index == 0 && calleeName(&call.Call) == "os.Open"
+			if ok && x.Index == 0 && calleeName(&call.Call) == "os.Open" {
+				return true
+			}
+			// a module helper that hands out what it opened: every non-nil first result it
+			// returns is such a reader
+			if callee := call.Call.StaticCallee(); ok && callee != nil && callee.Blocks != nil && x.Index == 0 {
+				n := 0
+				for _, ret := range returnsOf(callee) {
+					rs := resultsOf(ret)
+					if len(rs) == 0 {
+						return false
+					}
+					if isNilConst(stripConv(rs[0])) {
+						continue
+					}
+					if !fromOpen(rs[0], d+1) {
+						return false
+					}
+					n++
+				}
+				return n > 0
+			}
+			return false
 		case *ssa.Phi:
 			for _, e := range x.Edges {
 				if !fromOpen(e, d+1) {
